@@ -100,7 +100,7 @@ def main():
             dst = os.path.join(VERIF, "seeded", a.keep)
             os.makedirs(dst, exist_ok=True)
             for f in ("patch.diff", "demo_test.py", "notes.md"):
-                if os.path.exists(os.path.join(d, f)):
+                if os.path.exists(os.path.join(d, f)) and os.path.realpath(d) != os.path.realpath(dst):
                     shutil.copy(os.path.join(d, f), os.path.join(dst, f))
             old = {}
             mp = os.path.join(dst, "meta.json")
